@@ -24,8 +24,9 @@ META = {
 def run(ctx):
     import wrapper_corr
 
-    runner_corr.run_cluster(ctx, "C09")
+    # the wrapper level first (seconds): once the trace conformance is broken, the runner cluster spends the remaining budget on its searches
     wrapper_corr.run_wrapper_level(ctx, "C09")
+    runner_corr.run_cluster(ctx, "C09")
 
 
 def replay(ctx, case):
